@@ -2,6 +2,7 @@
    The concurrent part (N racing requests sharing a key) is examined by the schedule harness, not by these theorems. *)
 From Coq Require Import List ZArith String Bool Lia.
 From LV Require Import Base.Util Ledger.Types Ledger.Core Ledger.Invariants Ledger.IkProofs.
+From LV Require Export Props.C13c.   (* concurrent part: theorems over all schedules of the interleaving model Ledger/Conc.v *)
 Import ListNotations.
 Open Scope Z_scope.
 
